@@ -31,6 +31,12 @@ func c01Roots(c *core.Ctx) []*ssa.Function {
 	return roots
 }
 
+// c01GlobalWrites: package-level variables written inside the consensus closure, confirmed by reading; value = why it cannot carry
+// state from one block's execution into the next one's result.
+var c01GlobalWrites = map[string]string{
+	"common/rlp.typeCache": "memo keyed by reflect.Type; an entry is a pure function of the type (kind, fields, tags), so a hit and a miss yield the same codec",
+}
+
 // mapLoopTable: the map iterations inside the consensus closure that the syntactic classifier cannot prove order-insensitive,
 // confirmed by reading; value = {count, reason}. A new one (or a higher count) is a violation.
 var mapLoopTable = map[string]struct {
@@ -163,6 +169,205 @@ func c01(c *core.Ctx) {
 				}
 			}
 			c.Check("time-budget/"+shortFn(fn), "determinism", ok, fn.Pos(), "%s executes transactions with an unlimited time budget (constant MaxInt64), so an included transaction's result never depends on the clock", shortFn(fn))
+		}
+	})
+
+	c.Run("state-across-blocks", func() {
+		// (a) package-level variables written inside the closure: anything kept there outlives the block and can differ between a node that
+		// executed the previous blocks and one that did not
+		n := 0
+		for _, f := range fns {
+			if f.Name() == "init" || (f.Parent() != nil && core.Outer(f).Name() == "init") {
+				continue
+			}
+			gw := globalWritesIn(f)
+			var gs []*ssa.Global
+			for g := range gw {
+				gs = append(gs, g)
+			}
+			sort.Slice(gs, func(i, j int) bool { return gs[i].String() < gs[j].String() })
+			for _, g := range gs {
+				n++
+				key := strings.TrimPrefix(strings.TrimPrefix(g.Pkg.Pkg.Path(), core.ModPath), "/") + "." + g.Name()
+				reason, listed := c01GlobalWrites[key]
+				c.Check("global-write/"+key+"@"+shortFn(f), "effects", listed, gw[g][0].Pos(), "%s writes the package-level variable %s inside the consensus closure (%s); listed=%v: %s", shortFn(f), key, closurePath(cl, f), listed, reason)
+			}
+		}
+		c.Note("package-level writes inside the closure: %d", n)
+
+		// (b) the executors keep nothing from one block to the next: a field of TxProcessor / BlockAssembler is either never written after
+		// construction, or it is re-initialised from the block at hand, unconditionally, before the first transaction of every block
+		applyTx := c.Method("chain/transaction.TxProcessor", "applyTx")
+		entries := []*ssa.Function{c.Fn("chain/transaction.TxProcessor.Process"), c.Fn("chain/transaction.TxProcessor.ApplyTxs")}
+		for _, tn := range []string{"chain/transaction.TxProcessor", "chain/consensus.BlockAssembler"} {
+			named := c.Named(tn)
+			st := named.Underlying().(*types.Struct)
+			fieldSet := map[*types.Var]bool{}
+			for i := 0; i < st.NumFields(); i++ {
+				fieldSet[st.Field(i)] = true
+			}
+			type wsite struct {
+				fn   *ssa.Function
+				in   ssa.Instruction
+				st   *ssa.Store // non-nil for a direct store of the field
+				cons bool
+			}
+			writes := map[*types.Var][]wsite{}
+			// field the address/value v is (or is loaded from / lies under)
+			var under func(v ssa.Value, d int) (*types.Var, ssa.Value)
+			under = func(v ssa.Value, d int) (*types.Var, ssa.Value) {
+				if d > 8 {
+					return nil, nil
+				}
+				switch x := v.(type) {
+				case *ssa.FieldAddr:
+					if f := core.FieldOf(x); f != nil && fieldSet[f] {
+						return f, x.X
+					}
+					return under(x.X, d+1)
+				case *ssa.IndexAddr:
+					return under(x.X, d+1)
+				case *ssa.UnOp:
+					if x.Op == token.MUL {
+						// a load through a pointer-typed field reaches another object (the account manager, the store): not executor state
+						if _, isPtr := x.Type().Underlying().(*types.Pointer); isPtr {
+							return nil, nil
+						}
+						if _, isIface := x.Type().Underlying().(*types.Interface); isIface {
+							return nil, nil
+						}
+						return under(x.X, d+1)
+					}
+				case *ssa.Slice:
+					return under(x.X, d+1)
+				case *ssa.ChangeType:
+					return under(x.X, d+1)
+				}
+				return nil, nil
+			}
+			for _, fn := range c.SrcFuncs {
+				if isTestHelper(c, fn) {
+					continue
+				}
+				for _, b := range fn.Blocks {
+					for _, in := range b.Instrs {
+						var target ssa.Value
+						var direct *ssa.Store
+						switch x := in.(type) {
+						case *ssa.Store:
+							target = x.Addr
+							if fa, ok := x.Addr.(*ssa.FieldAddr); ok && fieldSet[core.FieldOf(fa)] {
+								direct = x
+							}
+						case *ssa.MapUpdate:
+							target = x.Map
+						case *ssa.Call:
+							if bi, ok := x.Call.Value.(*ssa.Builtin); ok && (bi.Name() == "delete" || bi.Name() == "copy" || bi.Name() == "clear") && len(x.Call.Args) > 0 {
+								target = x.Call.Args[0]
+							}
+						}
+						if target == nil {
+							continue
+						}
+						f, base := under(target, 0)
+						if f == nil {
+							continue
+						}
+						_, fresh := base.(*ssa.Alloc)
+						writes[f] = append(writes[f], wsite{fn, in, direct, fresh})
+					}
+				}
+			}
+			// resetIn(e, f): a store of f whose value does not depend on the executor's own fields, executed on every path of e before the first transaction
+			resetIn := func(e *ssa.Function, f *types.Var) bool {
+				first := core.CallsIn(e, applyTx)
+				domAll := func(in ssa.Instruction) bool {
+					for _, a := range first {
+						if !core.Dominates(in, a) {
+							return false
+						}
+					}
+					return len(first) > 0
+				}
+				for _, w := range writes[f] {
+					if w.st == nil || w.cons {
+						continue
+					}
+					dep := false
+					for v := range core.Slice(w.st.Val) {
+						if fa, ok := v.(*ssa.FieldAddr); ok && fieldSet[core.FieldOf(fa)] {
+							dep = true
+						}
+					}
+					if dep {
+						continue
+					}
+					if w.fn == e && domAll(w.st) {
+						return true
+					}
+					// one level of helper: the store runs on every normal path of the helper and the helper's call precedes the transactions
+					allRet := true
+					for _, r := range core.Returns(w.fn) {
+						if !core.Dominates(w.st, r) {
+							allRet = false
+						}
+					}
+					if allRet && w.fn.Object() != nil {
+						if fo, ok := w.fn.Object().(*types.Func); ok {
+							for _, ci := range core.CallsIn(e, fo) {
+								if domAll(ci) {
+									return true
+								}
+							}
+						}
+					}
+				}
+				return false
+			}
+			n := 0
+			for i := 0; i < st.NumFields(); i++ {
+				f := st.Field(i)
+				late := 0
+				var pos token.Pos
+				for _, w := range writes[f] {
+					if !w.cons {
+						late++
+						if pos == token.NoPos {
+							pos = w.in.Pos()
+						}
+					}
+				}
+				ok := late == 0
+				if !ok {
+					ok = true
+					for _, e := range entries {
+						if !resetIn(e, f) {
+							ok = false
+						}
+					}
+				}
+				n++
+				c.Check("executor-state/"+named.Obj().Name()+"."+f.Name(), "effects", ok, pos, "%s.%s is written after construction at %d site(s) and is not re-initialised from the block, unconditionally, before the first transaction in both Process and ApplyTxs: what it holds comes from the blocks this node executed before", named.Obj().Name(), f.Name(), late)
+			}
+			c.Floor("executor-state/"+named.Obj().Name()+"/fields", n, 4)
+		}
+		// the account manager is re-based on the parent state before the first transaction of every block
+		reset := c.Method("chain/account.Manager", "Reset")
+		for _, e := range entries {
+			ok := false
+			for _, ci := range core.CallsIn(e, reset) {
+				_, a := recvArgs(ci)
+				dom := true
+				for _, at := range core.CallsIn(e, applyTx) {
+					if !core.Dominates(ci, at) {
+						dom = false
+					}
+				}
+				if dom && len(a) == 1 && core.SliceHasField(core.Slice(a[0]), c.FieldVar("chain/types.Header", "ParentHash")) && core.Slice(a[0])[e.Params[1]] {
+					ok = true
+				}
+			}
+			c.Check("executor-state/"+shortFn(e)+":Reset(header.ParentHash)≺applyTx", "order", ok, e.Pos(), "%s re-bases the account manager on the parent block of the header it executes before the first transaction", shortFn(e))
 		}
 	})
 
@@ -307,6 +512,12 @@ func c01(c *core.Ctx) {
 			h, why := core.CallHeeded(fi[0], core.ErrNonNil, nil)
 			c.Check("Finalize→Finalise", "heeded-guard", h, fi[0].Pos(), "a failing Finalise fails Finalize: %s", orOK(why))
 		}
+		// premise of the map-order exemption of ChangeVotesByBalance (see mapLoopTable): the per-voter VotesLogs of one candidate are
+		// merged into one log, so the order in which the voters were visited does not reach the block's change-log root
+		nm := c.Fn("chain/account.needMerge")
+		nmv, nmEval := core.EvalConst(nm, map[int]constant.Value{0: c.Const("chain/account.VotesLog").Val()})
+		c.Check("ChangeVotesByBalance:map-order-premise/needMerge(VotesLog)=true", "partial-evaluation", nmEval && nmv.Kind() == constant.Bool && constant.BoolVal(nmv), nm.Pos(),
+			"ChangeVotesByBalance visits the voters in map order; that is harmless only because the VotesLogs it emits for one candidate are merged (additions commute), i.e. needMerge(VotesLog) is true")
 	})
 
 	c.Run("block-gas-accounting", func() {
@@ -849,4 +1060,56 @@ func collectThenSortCell(body map[*ssa.BasicBlock]bool, header *ssa.BasicBlock) 
 		}
 	}
 	return true, true
+}
+
+// globalWritesIn lists instructions of fn that write a package-level variable or memory reached from one (store to the variable, to a
+// field/element under it, map update/delete on a map loaded from it).
+func globalWritesIn(fn *ssa.Function) map[*ssa.Global][]ssa.Instruction {
+	out := map[*ssa.Global][]ssa.Instruction{}
+	var rootG func(v ssa.Value, d int) *ssa.Global
+	rootG = func(v ssa.Value, d int) *ssa.Global {
+		if d > 8 {
+			return nil
+		}
+		switch x := v.(type) {
+		case *ssa.Global:
+			return x
+		case *ssa.FieldAddr:
+			return rootG(x.X, d+1)
+		case *ssa.IndexAddr:
+			return rootG(x.X, d+1)
+		case *ssa.UnOp:
+			if x.Op == token.MUL {
+				return rootG(x.X, d+1)
+			}
+		case *ssa.Slice:
+			return rootG(x.X, d+1)
+		case *ssa.Field:
+			return rootG(x.X, d+1)
+		case *ssa.ChangeType:
+			return rootG(x.X, d+1)
+		}
+		return nil
+	}
+	for _, b := range fn.Blocks {
+		for _, in := range b.Instrs {
+			switch x := in.(type) {
+			case *ssa.Store:
+				if g := rootG(x.Addr, 0); g != nil {
+					out[g] = append(out[g], in)
+				}
+			case *ssa.MapUpdate:
+				if g := rootG(x.Map, 0); g != nil {
+					out[g] = append(out[g], in)
+				}
+			case *ssa.Call:
+				if bi, ok := x.Call.Value.(*ssa.Builtin); ok && (bi.Name() == "delete" || bi.Name() == "copy" || bi.Name() == "clear") && len(x.Call.Args) > 0 {
+					if g := rootG(x.Call.Args[0], 0); g != nil {
+						out[g] = append(out[g], in)
+					}
+				}
+			}
+		}
+	}
+	return out
 }
